@@ -220,38 +220,8 @@ func VerifC39_maxbuf() {
 	vfAssume(kind != 2 && ctx == "")
 	m := 1 + vfChoice("maxbuf", 6)
 	cdata := vfChoice("cdata", 2) == 1
-	zr := NewTokenizerFragment(c39newReader(kind, append([]byte(nil), input...)), ctx)
-	zr.AllowCDATA(cdata)
-	ref := c39drive(zr, input)
-	z := NewTokenizerFragment(c39newReader(kind, append([]byte(nil), input...)), ctx)
-	z.AllowCDATA(cdata)
-	z.SetMaxBuf(m)
-	r := c39drive(z, input)
-	vfAssert(r.done, "limited tokenizer reaches ErrorToken")
-	vfAssert(r.err == io.EOF || r.err == ErrBufferExceeded, "final error is EOF or ErrBufferExceeded")
-	// Slack: readByte stops at raw length == maxBuf, but readMarkupDeclaration calls readByte again after a failed
-	// readDoctype (and once more after a failed readCDATA) although z.err is already set, so a "<!DOCTYPE"/"<![CDATA["
-	// token can exceed maxBuf by 1 (2 with AllowCDATA) bytes. Treated as within the intent of the limit (bounded).
-	slack := 1
-	if cdata {
-		slack = 2
-	}
-	vfAssert(r.maxRaw <= m+slack, "no token buffers more than maxBuf (+1, +2 with CDATA) raw bytes")
-	if r.maxRaw > m {
+	if c39maxbufCheck(input, ctx, kind, m, cdata) { // zz_verif_c39b_test.go
 		vfReach("overshoot")
 	}
-	vfAssert(cap(z.buf) <= 4096, "buffer does not grow")
-	vfAssert(len(r.concat) <= len(input) && c39eq(r.concat, input[:len(r.concat)]), "limited run yields a prefix of the input")
-	if r.err == io.EOF {
-		vfAssert(c39eq(r.concat, ref.concat) && len(r.lens) == len(ref.lens), "a run that does not hit the limit is identical to the unlimited run")
-		vfReach("limit not hit")
-	} else {
-		vfReach("limit hit")
-	}
-	if ref.maxRaw > m+slack {
-		vfAssert(r.err == ErrBufferExceeded, "a token of more than maxBuf (+slack) raw bytes stops tokenization with ErrBufferExceeded")
-	}
-	vfObserve("ntokens", uint64(len(r.lens)))
-	vfObserveBool("exceeded", r.err == ErrBufferExceeded)
 	vfReach("end")
 }
